@@ -33,10 +33,12 @@ fn leaf(k: usize) -> E {
         10 => E::bin(Op::Eq, E::Lit(V::Int(1)), E::bin(Op::Div, E::Lit(V::Int(1)), E::Lit(V::Int(0)))),
         11 => E::bin(Op::Eq, E::Lit(V::Int(1)), E::Lit(V::Int(2))),
         12 => E::bin(Op::Ne, E::Lit(V::Int(1)), E::bin(Op::Rem, E::Lit(V::Int(1)), E::Lit(V::Int(0)))),
-        _ => E::bin(Op::Ne, E::Lit(V::Int(1)), E::Lit(V::Int(2))),
+        13 => E::bin(Op::Ne, E::Lit(V::Int(1)), E::Lit(V::Int(2))),
+        // a call of a function no context has: an error only if the operand is evaluated
+        _ => E::call("no_such_function", vec![]),
     }
 }
-const FULL: usize = 14;
+const FULL: usize = 15;
 const REDUCED: usize = 6;
 
 fn renumber(e: &mut E, next: &mut i64) {
@@ -110,20 +112,33 @@ pub fn check(c: &Case) -> Outcome {
     if let Err(Stop::Unsupported(w)) = &variants[0].0 {
         return Outcome::Skip(w);
     }
-    let src = full.render();
-    let (ran, log) = sut::run_logged(&src, &[], &vec![]);
-    let got = match ran {
-        Ran::Done(r) => r,
-        o => return fail(format!("`{src}`: {}", o.show())),
-    };
-    let k = variants.iter().position(|(_, st)| st.log == log).unwrap_or(0);
+    // two spellings of the same tree: every operator application parenthesised, and only the parentheses the precedence
+    // table requires (flat `a || b || c` chains, `c ? x : d ? y : z` ladders)
+    let full_src = full.render();
+    let min_src = crate::props::c04::render_min(&full, 0, &mut crate::props::c04::Ws { seps: &[], pos: 0 });
+    let mut sources = vec![full_src.clone()];
+    if min_src != full_src {
+        sources.push(min_src);
+    }
+    let mut picked = None;
+    for src in &sources {
+        let (ran, log) = sut::run_logged(src, &[], &vec![]);
+        let got = match ran {
+            Ran::Done(r) => r,
+            o => return fail(format!("`{src}`: {}", o.show())),
+        };
+        let k = variants.iter().position(|(_, st)| st.log == log).unwrap_or(0);
+        let (model, st) = (variants[k].0.clone(), &variants[k].1);
+        if log != st.log {
+            return fail(format!("`{src}`: host calls that must happen {:?}, host calls observed {:?} (result model {:?}, interpreter {})", st.log, log, model, got.show()));
+        }
+        if !agree(&model, &got) {
+            return fail(format!("`{src}`: model {:?}, interpreter {}", model, got.show()));
+        }
+        picked = Some(k);
+    }
+    let k = picked.unwrap_or(0);
     let (model, st) = (variants[k].0.clone(), &variants[k].1);
-    if log != st.log {
-        return fail(format!("`{src}`: host calls that must happen {:?}, host calls observed {:?} (result model {:?}, interpreter {})", st.log, log, model, got.show()));
-    }
-    if !agree(&model, &got) {
-        return fail(format!("`{src}`: model {:?}, interpreter {}", model, got.show()));
-    }
     let observable = c.expr.count(&|x| matches!(x, E::Call(n, ..) if n == "t" || n == "fail"));
     let raisers = c.expr.count(&|x| matches!(x, E::Call(n, ..) if n == "fail") || matches!(x, E::Bin(Op::Div | Op::Add, ..) | E::Select(..)) || matches!(x, E::Var(_)));
     let iterations = if c.wrap == 0 { 1 } else { st.macro_iterations.max(1) as usize };
@@ -151,7 +166,7 @@ fn gen_tree(u: &mut Chooser, depth: usize) -> E {
 
 pub fn run(r: &mut Runner) {
     r.rule = "cases: trees over &&, ||, ?: (and !) whose leaves are true/false, error raisers (1/0, overflow, missing key, undeclared name, failing host function) \
-              and logging host calls t(id, bool) with ids in source order; exhaustive to depth 1 over the 14-leaf alphabet and to depth 2 over a 6-leaf alphabet, random \
+              and logging host calls t(id, bool) with ids in source order; exhaustive to depth 1 over the 15-leaf alphabet and to depth 2 over a 6-leaf alphabet, random \
               to depth 4, bare and as bodies of all/exists/exists_one/filter/map, as guard and as guarded transform of the three-argument map. Oracle: the reference evaluator's outcome class and exact ordered host-call log. \
               Non-trivial: an operand containing a host call or a raiser was skipped observably; distinct by (tree, embedding)."
         .into();
